@@ -301,8 +301,9 @@ def c08_units(tier):
          Unit("c08-w32", "c08.cpp", W32, cases=scale(tier, 500, 6000), shards=2 if tier == "quick" else 8, wrapper=VG, timeout=3000),
          Unit("c08-novec256", "c08.cpp", NOVEC256, cases=scale(tier, 500, 6000), shards=2 if tier == "quick" else 8, wrapper=VG, timeout=3000)]
     if tier == "thorough":
-        u += [Unit("c08-nosimd", "c08.cpp", NOSIMD, cases=3000, shards=8, wrapper=VG, timeout=3000),
-              Unit("c08-clang", "c08.cpp", CLANG_O3, cases=3000, shards=8, wrapper=VG, timeout=3000)]
+        u += [Unit("c08-nosimd", "c08.cpp", NOSIMD, cases=6000, shards=8, wrapper=VG, timeout=6000),
+              Unit("c08-w32-portable", "c08.cpp", W32_PORTABLE, cases=6000, shards=8, wrapper=VG, timeout=6000),
+              Unit("c08-clang", "c08.cpp", CLANG_O3, cases=6000, shards=8, wrapper=VG, timeout=6000)]
     return u
 
 
@@ -365,7 +366,12 @@ prop("C08",
 VG_EXACT = [x for x in VG if not x.startswith("--partial-loads-ok")] + ["--partial-loads-ok=no"]
 
 def c09_units(tier):
-    return [Unit("c09-memcheck", "c09.cpp", SHIPPED, cases=scale(tier, 600, 10000), shards=8 if tier == "quick" else 16, wrapper=VG_EXACT, args=["--mode", "vg"], timeout=3000),
+    extra = []
+    if tier == "thorough":   # the byte-wise / 32-bit / SIMD-less paths have their own loads and stores
+        extra = [Unit("c09-memcheck-w32-portable", "c09.cpp", W32_PORTABLE, cases=6000, shards=8, wrapper=VG_EXACT, args=["--mode", "vg"], timeout=6000),
+                 Unit("c09-memcheck-novec256", "c09.cpp", NOVEC256, cases=6000, shards=8, wrapper=VG_EXACT, args=["--mode", "vg"], timeout=6000),
+                 Unit("c09-native-w32-portable", "c09.cpp", W32_PORTABLE, cases=100000, shards=8, args=["--mode", "native"])]
+    return extra + [Unit("c09-memcheck", "c09.cpp", SHIPPED, cases=scale(tier, 600, 10000), shards=8 if tier == "quick" else 16, wrapper=VG_EXACT, args=["--mode", "vg"], timeout=3000),
             Unit("c09-native", "c09.cpp", SHIPPED, cases=scale(tier, 25000, 400000), shards=4 if tier == "quick" else 16, args=["--mode", "native"]),
             asan_unit("c09-asan", "c09.cpp", scale(tier, 6000, 100000), args=["--mode", "native", "--heap", "1"], shards=4 if tier == "quick" else 16)]
 
